@@ -502,7 +502,7 @@ func unusual(r *hx.Rng, codec byte, nalus [][]byte, hs []int) ([][]byte, string)
 		if codec == 'a' {
 			b[0] = byte(r.Pick(6, 9, 10, 11, 12, 7, 8)) | byte(r.Intn(4))<<5
 		} else {
-			b[0] = byte(r.Pick(35, 36, 37, 38, 39, 40, 32)) << 1
+			b[0] = byte(r.Pick(35, 36, 37, 38, 39, 40, 32, 33, 34)) << 1
 		}
 		return b
 	}
@@ -568,6 +568,29 @@ func unusual(r *hx.Rng, codec byte, nalus [][]byte, hs []int) ([][]byte, string)
 	case 10: // several empty NAL units at the end
 		nalus = append(nalus, []byte{}, []byte{})
 		return nalus, "empty-last-2"
+	case 11: // a slice that names a PPS id nobody has sent (first_mb 0 / first segment, pps id 4 resp. 5)
+		if k := vid(); k >= 0 && len(nalus[k]) > 3 {
+			b := append([]byte{}, nalus[k]...)
+			if codec == 'a' {
+				b[1] = 0xCA // ue(0) ue(0) ue(4)
+			} else if t := (b[0] >> 1) & 0x3f; t >= 16 && t <= 23 {
+				b[2] = 0x8C // first_slice_segment 1, no_output_of_prior_pics 0, ue(5)
+			} else {
+				b[2] = 0x98 // first_slice_segment 1, ue(5)
+			}
+			nalus[k] = b
+			return nalus, "unknown-pps"
+		}
+	case 12: // a slice cut somewhere inside (or right behind) its header, in front of further NAL units
+		if k := vid(); k >= 0 && len(nalus[k]) > 2 {
+			lim := len(nalus[k]) - 1
+			if lim > 48 {
+				lim = 48
+			}
+			nalus[k] = nalus[k][:r.Range(1, lim)]
+			insert(k+1, nonVideo(r.Pick(2, 5, 20)))
+			return nalus, "truncated-slice"
+		}
 	}
 	return nalus, "plain"
 }
@@ -1546,6 +1569,36 @@ func search(e *env, seed uint64, n int, big int) {
 			samples[j] = frame(naluLists[j])
 			emptyNalSamples++
 		}
+		if codec != 'u' && g == nil && i%12 == 4 {
+			// a clear run of exactly 65535 / 65536 / 65537 / 131070 / 131071 bytes (AppendProtectRange splits at 65535):
+			// one non-video NAL unit, for cenc followed by a protected video NAL unit of 200 bytes (108 of its 204 clear)
+			T := r.Pick(65535, 65536, 65536, 65537, 131070, 131071, 131072, 65534)
+			nv := func(sz int) []byte {
+				bb := r.Bytes(sz, nil)
+				if codec == 'a' {
+					bb[0] = 6
+				} else {
+					bb[0] = 39 << 1
+				}
+				return bb
+			}
+			var nal [][]byte
+			if scheme == "cenc" && r.Bool() {
+				v := r.Bytes(200, nil)
+				if codec == 'a' {
+					v[0] = 0x65
+				} else {
+					v[0], v[1] = 19<<1, 1
+				}
+				nal = [][]byte{nv(T - 112), v}
+			} else {
+				nal = [][]byte{nv(T - 4)}
+			}
+			j := r.Intn(ns)
+			samples[j] = frame(nal)
+			naluLists[j] = nal
+			boundaryRuns++
+		}
 		if codec != 'u' && g == nil && scheme == "cenc" && i%25 == 7 {
 			// a sample with many protected NAL units: 38..45 sub-sample entries
 			k := r.Range(38, 45)
@@ -1614,13 +1667,14 @@ func search(e *env, seed uint64, n int, big int) {
 	fmt.Fprintf(out, "NOTE\tfragments_with_unusual_placement\t%d\n", benignSamples)
 	fmt.Fprintf(out, "NOTE\tfragments_with_empty_nal_units\t%d\n", emptyNalSamples)
 	fmt.Fprintf(out, "NOTE\tsamples_read_through_trun_offset\t%d\n", rawReads)
+	fmt.Fprintf(out, "NOTE\tsamples_with_clear_run_at_65535_boundary\t%d\n", boundaryRuns)
 	fmt.Fprintf(out, "NOTE\tiv_across_fragments\tEncryptFragment has no IV state across fragments: callers (cmd/mp4ff-encrypt) start every fragment from the same IV, so with one key counter blocks repeat ACROSS fragments; the property speaks about one fragment - not alarmed\n")
 	fmt.Fprintf(out, "EVALS\t%d\n", evals)
 	out.Flush()
 }
 
 // checkFragment evaluates the clauses of C07 on one encrypted fragment, after a full encode/decode cycle.
-var maskChecked, synthFrags, benignSamples, emptyNalSamples, rawReads int
+var maskChecked, synthFrags, benignSamples, emptyNalSamples, rawReads, boundaryRuns int
 
 func checkFragment(e *env, fr fragResult, prefix []fragResult, codec byte, scheme string, key, ivIn []byte, samples [][]byte, naluLists [][][]byte, hdrLists [][]int, wit string) {
 	// encode init + fragment, decode again: the observation point is the encoded file
@@ -1730,7 +1784,11 @@ func checkFragment(e *env, fr fragResult, prefix []fragResult, codec byte, schem
 					got = int(saiz.SampleInfo[i])
 				}
 				if got != entryLen[i] {
-					fail("mp4.SaizBox.AddSampleInfo", "saiz-size", wit, fmt.Sprintf("sample %d: saiz size %d, senc entry is %d bytes", i, got, entryLen[i]))
+					cls := "saiz-size"
+					if entryLen[i] >= 256 && got == entryLen[i]%256 { // known finding C07-F1: the 8-bit size field wraps
+						cls = "saiz-size-wraps-at-256"
+					}
+					fail("mp4.SaizBox.AddSampleInfo", cls, wit, fmt.Sprintf("sample %d: saiz size %d, senc entry is %d bytes", i, got, entryLen[i]))
 					break
 				}
 			}
